@@ -37,8 +37,6 @@ type Case struct {
 	Frame  *FrameCase  `json:"frame,omitempty"`
 }
 
-type FrameCase struct{}
-
 type ChanOp struct {
 	Kind  string   `json:"kind"` // bcast | env
 	Size  int      `json:"size,omitempty"`
@@ -621,6 +619,12 @@ func TestCheck(t *testing.T) {
 		for i := 0; i < env.N(3, 3); i++ {
 			cases = append(cases, Case{Kind: "chan", Chan: genOverflow(r.Fork())})
 		}
+		for i := 0; i < env.N(3, 3); i++ {
+			cases = append(cases, Case{Kind: "frame", Frame: genFrame(r.Fork())})
+		}
+		for i := 0; i < env.N(6, 6); i++ {
+			cases = append(cases, Case{Kind: "member", Member: genMember(r.Fork(), i)})
+		}
 		maxOps := 22
 		if thorough {
 			maxOps = 50
@@ -644,6 +648,12 @@ func TestCheck(t *testing.T) {
 		case "deleg":
 			term, viols, tags = runDeleg(t, c.Deleg)
 			nontrivial = tags["merge-remote"] > 0 && tags["notify"] > 0
+		case "member":
+			term, viols, tags = runMember(t, c.Member)
+			nontrivial = tags["update-big"] > 0 && tags["restart"] > 0
+		case "frame":
+			term, viols, tags = runFrame(t, c.Frame)
+			nontrivial = true
 		default:
 			continue
 		}
